@@ -37,7 +37,7 @@ MODELLED = [
     "horizontal decodability is proved for the Lean decoder Render.hdecode (C18.h_decodable); in addition the decoder is run by the driver on the model's own hyieldTree output for every generated tree (op=hdec), and the oracle decodes the REAL text with an independent Python reader",
 ]
 ASSUMPTIONS = [
-    "node names contain no line break; decodability claims are for names without leading blanks / style glyphs (vertical) and without blanks / style glyphs (horizontal)",
+    "node names contain no line break; decodability claims are for names without leading blank / glyph character and without a connector inside (vertical, nameOk) and for names without white space (horizontal, hnameOk)",
     "sibling names are distinct (Node enforces it)",
     "K2: tree_to_dot ids collide when a name ends in a digit; K3: tree_to_mermaid shows no vertex for a one-node rendering; K4: the built-in horizontal style 'ascii' is ambiguous",
 ]
